@@ -609,7 +609,10 @@ class Union(Composite):
         inheritance. For example, if a union U2 extends U1 in Python, this
         validator will accept U1 in places where U2 is expected.
         """
-        if not issubclass(self.definition, type(val)):
+        # A plain object() is a Python parent class of every definition too,
+        # but it is not a union: require the union interface.
+        if not (hasattr(val, '_tagmap') and
+                issubclass(self.definition, type(val))):
             raise ValidationError('expected type %s or subtype, got %s' %
                 (
                     type_name_with_module(self.definition),
